@@ -371,6 +371,9 @@ func (e *Engine) applyContractFr(fr *Frame, st *State, ct *Contract, fn *ssa.Fun
 		rs = append(rs, v)
 		if i < len(rnames) {
 			vars[rnames[i]] = v
+			if b := ct.Opts["borrowed"]; b != "" && b == rnames[i] {
+				v.Borrowed = shortName(ct.Key)
+			}
 		}
 	}
 	ctx.assume = true
@@ -548,6 +551,11 @@ func (e *Engine) havocModifies(st *State, ctx *EvalCtx, mods []string) error {
 	}
 	for _, g := range mt.ghosts {
 		st.ghost[g] = st.fresh("g_"+g, e.ghostSort(g))
+		for fk := range st.facts {
+			if strings.HasPrefix(fk, "GHOST:"+g+"@") {
+				delete(st.facts, fk)
+			}
+		}
 	}
 	if mt.all {
 		e.havocAllHeap(st)
@@ -616,6 +624,7 @@ func (e *Engine) builtin(fr *Frame, st *State, b *ssa.Builtin, c *ssa.CallCommon
 		return r, nil
 	case "append":
 		x, y := args[0], args[1]
+		e.borrowCheck(fr, st, y, "appended to a slice", pos)
 		if x.S == sBytes {
 			// []byte append: concatenation (y may be Bytes or Str)
 			ys := y.T
@@ -720,6 +729,45 @@ var intrinsics = map[string]intrinsic{
 
 func init() {
 	intrinsics["fmt.Sprintf"] = sprintfIntrinsic
+	intrinsics["(*strings.Builder).WriteString"] = func(e *Engine, fr *Frame, st *State, args []*Val, pos token.Pos) (*Val, error) {
+		return e.builderAppend(fr, st, args[0], args[1].T, pos)
+	}
+	intrinsics["(*strings.Builder).WriteRune"] = func(e *Engine, fr *Frame, st *State, args []*Val, pos token.Pos) (*Val, error) {
+		// only constant ASCII runes are rendered; anything else appends an opaque string
+		piece := st.fresh("rune", sStr)
+		if strings.HasPrefix(args[1].T, "#x") {
+			var r uint64
+			fmt.Sscanf(args[1].T[2:], "%x", &r)
+			if r < 128 {
+				piece = e.reg.strLit(string(rune(r)))
+			}
+		}
+		return e.builderAppend(fr, st, args[0], piece, pos)
+	}
+	intrinsics["(*strings.Builder).String"] = func(e *Engine, fr *Frame, st *State, args []*Val, pos token.Pos) (*Val, error) {
+		return &Val{T: e.builderContent(st, args[0]), S: sStr, Typ: types.Typ[types.String]}, nil
+	}
+}
+
+// strings.Builder: its content is the ghost map sb_val[ref]; the executor also remembers the content term of each
+// builder it has seen on this path, so that successive writes stay in the canonical concatenation form.
+func (e *Engine) builderContent(st *State, b *Val) string {
+	if f, ok := st.facts["GHOST:sb_val@"+b.T]; ok {
+		return f.T
+	}
+	return sel(e.ghostGet(st, st.ghost, "sb_val"), b.T)
+}
+
+func (e *Engine) builderAppend(fr *Frame, st *State, b *Val, piece string, pos token.Pos) (*Val, error) {
+	if _, ok := e.specs.Ghosts["sb_val"]; !ok {
+		return nil, fmt.Errorf("strings.Builder used but ghost sb_val is not declared")
+	}
+	e.safety(fr, st, "nil dereference", not(eq(b.T, "0")), pos)
+	nt := e.strCat(st, e.builderContent(st, b), piece)
+	st.ghost["sb_val"] = sto(e.ghostGet(st, st.ghost, "sb_val"), b.T, nt)
+	st.facts["GHOST:sb_val@"+b.T] = &Val{T: nt, S: sStr}
+	n := &Val{T: st.fresh("written", sBV64), S: sBV64, Typ: types.Typ[types.Int]}
+	return &Val{S: "TUPLE", Tup: []*Val{n, {T: "nil_err", S: sErr}}}, nil
 }
 
 // retryCall models github.com/cenkalti/backoff/v4.Retry(op, b) for an operation that is a known closure with a
@@ -923,4 +971,23 @@ func (e *Engine) acquireInterference(fr *Frame, st *State, mu *Val) {
 		}
 		st.trail = append(st.trail, "acquire:"+g.Mutex)
 	}
+}
+
+// borrowCheck: a slice borrowed from a callee (e.g. the line returned by bufio.Reader.ReadLine, which the next read
+// overwrites) must not be retained.  Retaining it is reported as a failed obligation.
+func (e *Engine) borrowCheck(fr *Frame, st *State, v *Val, how string, pos token.Pos) {
+	lender := v.Borrowed
+	if lender == "" && v.HasCLen {
+		// a varargs slice: look at the elements recorded for it
+		for fk, f := range st.facts {
+			if f.Borrowed != "" && strings.HasPrefix(fk, e.keyElem(sBytes)+"@") && strings.Contains(v.T, strings.Split(fk, "@")[1]) {
+				lender = f.Borrowed
+			}
+		}
+	}
+	if lender == "" {
+		return
+	}
+	o := e.addObligation(st, fr, "borrowed-slice", []string{"borrow"}, "a slice borrowed from "+lender+" (valid only until the next call) is "+how, e.posStr(pos), "false", nil)
+	o.Query = preamble + "(assert true)\n" // a dataflow fact of this path: decided syntactically, reported as a failed obligation
 }
